@@ -560,7 +560,25 @@ def _coercedetach_rule(chk, prog):
                 chk.violation(rule, fn.tu.name, fn.name, "sched_id++", bumps[0].loc,
                               "%s turns an await into an error and bumps the task's generation (%s) but leaves the fiber registered with the "
                               "stream it had attached to: a later event on that stream resumes the task out of an unrelated wait" % (fn.name, bumps[0].loc))
-    chk.floor(rule, 2, n)
+    # every place that coerces (it builds the "... coerced from <signal> to error" message) has such a branch
+    for fn in prog.all_funcs():
+        if not any(x.k == "str" and "coerced from" in (x.v if isinstance(x.v, str) else x.text()) for x in fn.nodes) and \
+                not any(c.k == "call" and c.callee == "janet_formatc" and "coerced from" in c.text() for c in fn.nodes):
+            continue
+        n += 1
+        chk.instance(rule)
+        chk.analysed(fn)
+        has = any(x.k == "if" and any(y.k == "ref" and y.name == "JANET_SIGNAL_EVENT" for y in x.kids[0].walk()) and
+                  any(c.k == "call" and c.callee in ("janet_async_end", "janet_fiber_did_resume") for c in x.kids[1].walk()) and
+                  any(z.k == "mem" and z.field == "sched_id" for z in x.kids[1].walk()) for x in fn.nodes)
+        if has:
+            chk.ok(rule, "%s: coercion site forgets the abandoned await" % fn.name)
+        else:
+            chk.violation(rule, fn.tu.name, fn.name, "coercion-site", fn.loc,
+                          "%s coerces signals to errors but has no branch that, for an await, bumps the task's generation and ends its async "
+                          "operation: an ev/sleep or ev/read refused inside a function that C called back keeps its timer or its stream "
+                          "registration and later completes an unrelated wait of the task" % fn.name)
+    chk.floor(rule, 3, n)
 
 
 def _cancelsticks_rule(chk, prog):
